@@ -11,6 +11,7 @@ mod exec;
 mod interp;
 mod local;
 mod models;
+mod obsmodels;
 mod terms;
 mod value;
 
@@ -79,6 +80,7 @@ fn val_json<'tcx>(m: &mut M<'tcx>, v: &V<'tcx>, t: Option<Ty<'tcx>>, depth: usiz
             s.push_str("}}");
             s
         }
+        V::Dyn(p, dt) => format!("{{\"dyn\":[{},{}]}}", jstr(&format!("{:?}", p.path)), jstr(&format!("{}", dt))),
         V::FnDef(d, _) => format!("{{\"fn\":{}}}", jstr(&m.tcx.def_path_str(*d))),
         V::OpaqueFn(n) => format!("{{\"fn\":{}}}", jstr(n)),
         V::Str(s) => format!("{{\"s\":{}}}", jstr(s)),
@@ -193,7 +195,7 @@ fn run_root<'tcx>(tcx: TyCtxt<'tcx>, did: rustc_span::def_id::DefId, cfg: Option
         }
     }
     let argd: Vec<String> = input_tys.iter().enumerate().map(|(i, t)| format!("[{},{}]", jstr(&format!("a{}", i)), jstr(&format!("{}", t)))).collect();
-    format!("{{\"name\":{},\"status\":{},\"steps\":{},\"args\":[{}],\"ret_ty\":{},\"terms\":{},\"paths\":[{}]}}", jstr(&name), jstr(&status), total_steps, argd.join(","), jstr(&format!("{}", ret_ty)), m.terms.to_json(), paths.join(","))
+    format!("{{\"name\":{},\"status\":{},\"steps\":{},\"args\":[{}],\"ret_ty\":{},\"terms\":{},\"visited\":[{}],\"paths\":[{}]}}", jstr(&name), jstr(&status), total_steps, argd.join(","), jstr(&format!("{}", ret_ty)), m.terms.to_json(), m.visited.iter().map(|x| jstr(x)).collect::<Vec<_>>().join(","), paths.join(","))
 }
 
 impl Callbacks for Cb {
